@@ -142,9 +142,10 @@ func NewGen(r *Rng, k Knobs) *Gen {
 		if k.RawConsts && ty == TInt && r.P(0.5) {
 			v = V{T: "int", I: int64(int(v.I % 1000))} // a plain Go int in the constant table
 		}
-		if (ty == TIntList || ty == TStrList) && len(v.IL)+len(v.SL) == 0 {
+		if (ty == TIntList || ty == TStrList) && len(v.IL)+len(v.SL) == 0 && !k.RawConsts {
 			// an empty list constant would be printed by Dump as "()" whatever
-			// its element type; keep constants unambiguous
+			// its element type; keep constants unambiguous (worlds that never
+			// read Dump back — the RawConsts ones — keep the empty list)
 			if ty == TIntList {
 				v = VIL([]int64{1})
 			} else {
